@@ -627,7 +627,9 @@ class TunnelCommunity(Community):
             hop.keys = session_keys
 
         except ValueError:
-            self.remove_circuit(circuit.circuit_id, "error while verifying shared secret")
+            # Malformed key material, just like a wrong authenticator, does not come from the hop we selected:
+            # ignore the answer (anybody who saw the plaintext create could have sent it), the retry logic goes on.
+            self.logger.warning("Ignoring answer with malformed key material for circuit %d", circuit.circuit_id)
             return
 
         circuit.unverified_hop = None
